@@ -18,6 +18,9 @@ func quoted(n Node) types.MalType {
 	if n.T == "fnref" {
 		return types.Symbol{Val: n.S}
 	}
+	if n.T == "fnform" && len(n.Xs) == 1 {
+		return ToMal(n.Xs[0]) // a (fn ...) form, evaluated at the call
+	}
 	switch n.T {
 	case "nil", "bool", "int", "str", "kw":
 		return ToMal(n)
